@@ -95,6 +95,12 @@ def directed_ops(name):
   return h
 
 
+def copies_ops(name):
+  """copies of copies: clone of an unpickled object (fresh and fitted), clone of a clone, pickle of a clone"""
+  return [['New', 1], ['Pickle', 1], ['Clone', 2], ['Fit', 3, 1], ['Query', 3, 1], ['Fit', 1, 1], ['Pickle', 1], ['Clone', 4],
+          ['Fit', 5, 1], ['Query', 5, 1], ['Clone', 3], ['Query', 6, 1], ['Pickle', 5], ['Query', 7, 2]]
+
+
 def run(ctx):
   depth_mc = 5 if ctx.quick else 6
   for has_thr, nq, tag in [(True, 2, 'thr'), (False, 2, 'nothr')]:
